@@ -82,7 +82,7 @@ class Spy:
     packer: what produced the bytes compile() returned: 'hb', 'py', 'py-after-hb-fail' (no deduplication)
     """
 
-    MAX_ATTEMPTS = 64
+    MAX_ATTEMPTS = 48
 
     def __init__(self, max_attempts=None):
         self.events = collections.Counter()
@@ -182,6 +182,12 @@ class Spy:
                     ok = _fn(old, new, rec)
                     label = _name + (str(fmt) if _name == "PairPos" else "")
                     spy.events[("split:" if ok else "split-refused:") + label] += 1
+                    if ok:
+                        for attr in ("mapping", "alternates", "ligatures"):
+                            if isinstance(getattr(old, attr, None), dict) and not getattr(old, attr):
+                                # everything went to the new subtable: the same overflow comes back for it, for ever
+                                spy.events["split-no-progress:" + label] += 1
+                                raise OverflowLoop("split of %s left an empty subtable and moved everything to the new one (%r)" % (label, rec))
                     return ok
 
                 self._patch(d, ltype, wrapped, is_item=True)
@@ -613,3 +619,77 @@ def _shared_gsub(spec, rnd, S):
     spec.update(n=n, table="GSUB", tag="ss04", lookups=lookups)
     if any(lk["kind"] == "alternate" for lk in lookups):
         spec["fvalue"] = rnd.choice([1, 1, 2])
+
+
+# ---------------------------------------------------------------------------
+# dense probes: every rule of the spec (or a budgeted sample) is hit at least once
+
+
+def _pack(seqs, maxlen):
+    """concatenate short sequences into runs of at most maxlen glyphs (the reference interprets whole runs,
+    so accidental matches across the seams are expected values like any other)"""
+    runs, cur = [], []
+    for s in seqs:
+        if cur and len(cur) + len(s) > maxlen:
+            runs.append(cur)
+            cur = []
+        cur = cur + list(s)
+    if cur:
+        runs.append(cur)
+    return runs
+
+
+def dense_probes(spec, seed, budget=120000, maxlen=16):
+    """Runs that together exercise every rule of the spec: every substitution source glyph, every ligature,
+    every specific pair, every non-zero class pair (one random member each) plus zero cells, every mark and
+    every base. `budget` bounds the number of glyphs (scaled down for specs with many lookups, whose
+    reference interpretation is linear in lookups x glyphs); beyond it rules are sampled uniformly."""
+    rnd = random.Random(seed)
+    nl = max(1, len(spec["lookups"]))
+    budget = int(min(budget, 3000000 / nl))
+    seqs = []
+    for lk in spec["lookups"]:
+        k = lk["kind"]
+        for st in lk["subtables"]:
+            if k in ("single", "multiple", "alternate"):
+                seqs += [[g] for g in st["map"]]
+            elif k == "ligature":
+                seqs += [list(c) for c, _l in st["ligs"]]
+            elif k == "pair1":
+                seqs += [[a, b] for a, b in st["pairs"]]
+            elif k == "pair2":
+                cells = list(st["vals"])
+                nz = set(cells)
+                for i in range(len(st["c1"])):
+                    for j in rnd.sample(range(len(st["c2"])), min(len(st["c2"]), 3)):
+                        if (i, j) not in nz:
+                            cells.append((i, j))
+                for i, j in cells:
+                    seqs.append([rnd.choice(st["c1"][i]), rnd.choice(st["c2"][j])])
+                # every member of every first class once (ClassDef1 / Coverage of the pieces), every member of every second class once
+                some_j = list(range(len(st["c2"])))
+                for i, c in enumerate(st["c1"]):
+                    row = [j for j in some_j if (i, j) in nz] or some_j
+                    for g in c:
+                        seqs.append([g, rnd.choice(st["c2"][rnd.choice(row)])])
+                some_i = list(range(len(st["c1"])))
+                for j, c in enumerate(st["c2"]):
+                    col = [i for i in some_i if (i, j) in nz] or some_i
+                    for g in c:
+                        seqs.append([rnd.choice(st["c1"][rnd.choice(col)]), g])
+            elif k == "markbase":
+                ms, bs = list(st["marks"]), list(st["bases"])
+                for m in ms:
+                    seqs.append([rnd.choice(bs), m])
+                for b in bs:
+                    seqs.append([b, rnd.choice(ms)])
+                    seqs.append([b, rnd.choice(ms)])
+    rnd.shuffle(seqs)
+    total = 0
+    keep = []
+    for s in seqs:
+        total += len(s)
+        if total > budget:
+            break
+        keep.append(s)
+    return _pack(keep, maxlen), len(keep), len(seqs)
